@@ -806,7 +806,7 @@ pub fn run_c09(o: &crate::Opts) {
         }
         finish_script(&mut rng, &mut cmds, !p.inp.is_empty());
         c.cmds = cmds;
-        c.nm = !c.words.contains(&0xF027) && rng.chance(1, 5);
+        c.nm = rng.chance(1, 5);
         let obs = run_debug(&mut cap, &c);
         let plain = run_plain(&mut cap, &c);
         // the `exit` command ends the program early by design: transparency is claimed for
@@ -1100,7 +1100,7 @@ fn gen_case(rng: &mut Rng, tag: &'static str) -> (DbgCase, &'static str) {
     // one session in five runs in the normal output mode (programs without the REG trap, whose
     // table differs between the modes)
     // (and without `eval`, whose refusal messages differ between the modes)
-    c.nm = !c.words.contains(&0xF027) && !c.cmds.iter().any(|x| matches!(x, Cmd::Eval(_))) && rng.chance(1, 5);
+    c.nm = !c.cmds.iter().any(|x| matches!(x, Cmd::Eval(_))) && rng.chance(1, 5);
     (c, p.kind)
 }
 
